@@ -11,7 +11,8 @@ def run(ctx):
     plan = [
         {"scens": wcat.history_scenarios(), "policies": ("FIFO", "LIFO", "JOBS"), "bound": 1 if q else 2, "cap": 40000},
         {"scens": wcat.nested_scenarios(), "policies": ("FIFO",), "bound": 1 if q else 2, "cap": 40000},
-        {"scens": [s for s in wcat.twoproc_scenarios() if s["family"] == "2proc:same"], "policies": ("FIFO", "LIFO"), "bound": 1 if q else 2, "cap": 60000},
+        {"scens": [s for s in wcat.twoproc_scenarios() if s["family"] == "2proc:same"], "policies": wcat.POL_WIDE, "bound": 1, "cap": 60000},
+        {"scens": [s for s in wcat.twoproc_scenarios() if s["family"] == "2proc:same"], "policies": ("FIFO",), "bound": 1 if q else 2, "cap": 400000},
     ]
     return run_w(ctx, PROPERTY, plan,
                  "submission sequences with duplicates at every position, after a wait, across two consecutive experiments (success marker present), "
@@ -19,3 +20,69 @@ def run(ctx):
                  "fine-grained scheduling points (every file / lock operation); all schedules within the deviation bound; oracles: submit returns the "
                  "first submission's output and job, body intervals of one job identifier never overlap, no body start after a successful body end, "
                  "no launch when a success marker exists")
+
+
+# ---------------------------------------------------------------------------------------------- real task processes, pairwise
+def pair_exploration(ctx, res):
+    """Two real TaskRunner processes on one job directory: A is stopped at every traced line (also inside the body,
+    while it holds the run lock), B runs meanwhile, A is resumed.  The body must never run twice at a time and must not
+    run again after it succeeded."""
+    from .c10 import VARIANTS
+    from .pool import Pool
+    fresh = {"done": False, "failed": None, "starts": 0, "ends": 0}
+    failed = {"done": False, "failed": "1", "starts": 0, "ends": 0}
+    done = {"done": True, "failed": None, "starts": 0, "ends": 0}
+    n = 0
+    with Pool(seeds=[0], init="engines.crash:worker_init") as pool:
+        items = []
+        for variant in VARIANTS[:2]:
+            for state in (fresh, failed, done):
+                base = pool.map("engines.crash:launch", [{"variant": variant, "state": state, "k": 0, "sig": 9}])[0]
+                nev = len(base.get("events", []))
+                for k in range(1, nev + 1):
+                    items.append({"variant": variant, "state": state, "k": k})
+        outs = pool.map("engines.crash:launch_pair", items)
+    for it, o in zip(items, outs):
+        n += 1
+        vname = f"{it['variant']['how']}{it['variant']['code']}"
+        log = o["log"]
+        payload = {"pair": True, "item": it, "result": o}
+        overlap = any(log[i] == "start" and log[i + 1] == "start" for i in range(len(log) - 1))
+        if overlap:
+            res.violation("taskrunner-pair:two-bodies-at-once", f"{vname} from {it['state']}, A stopped at line event {it['k']} {o.get('paused_at')}: body log {log}", payload)
+        starts = log.count("start")
+        ok_variant = it["variant"]["code"] == 0
+        if it["state"]["done"] and starts:
+            res.violation("taskrunner-pair:body-run-despite-marker", f"{vname}: success marker present, body log {log}", payload)
+        if ok_variant and not it["state"]["done"] and starts != 1:
+            res.violation(f"taskrunner-pair:body-run-{starts}-times", f"{vname} from {it['state']}, A stopped at line event {it['k']} {o.get('paused_at')}: body log {log} "
+                          f"(B finished before A resumed: {o.get('b_finished_before_resume')})", payload)
+        if o["hang"]:
+            res.violation("taskrunner-pair:hang", f"{vname} from {it['state']}, A stopped at {it['k']}: a process did not end", payload)
+    res.coverage["taskrunner_pair_launches"] = n
+    res.coverage["evaluations"] = res.coverage.get("evaluations", 0) + n
+    res.coverage["traces_validated_against_impl"] = res.coverage.get("traces_validated_against_impl", 0) + n
+
+
+_w_run = run
+
+
+def run(ctx):  # noqa: F811
+    res = _w_run(ctx)
+    pair_exploration(ctx, res)
+    res.coverage["rule"] += ("; plus pairs of REAL TaskRunner processes on one job directory: process A stopped (SIGSTOP) at every traced line event of "
+                             "run.py / the script / the task body, process B started meanwhile, A resumed - the body log must show no overlap and "
+                             "exactly one successful body")
+    return res
+
+
+_w_replay = replay
+
+
+def replay(ctx, payload):  # noqa: F811
+    if payload.get("pair"):
+        from . import crash
+        crash.worker_init()
+        print(crash.launch_pair(payload["item"]))
+        return 0
+    return _w_replay(ctx, payload)
